@@ -308,7 +308,8 @@ def allCouplings : List String :=
   inter (ds.foldl (fun acc d => union acc d.ins) []) (ds.foldl (fun acc d => union acc d.outs) [])
 
 /-- `_replace_strongly_coupled`: the reduced disciplines; a strong group becomes one node whose
-    inputs lose the strong couplings.  A group is represented once, by its smallest index. -/
+    inputs lose the strong couplings *of the group* (those of the other groups remain
+    dependencies).  A group is represented once, by its smallest index. -/
 def reduced (states : List String) : List (Disc × List Nat) :=
   let sc := strongCouplings ds states
   (List.range ds.length).filterMap (fun i =>
@@ -319,9 +320,11 @@ def reduced (states : List String) : List (Disc × List Nat) :=
         let grp := sccOf ds i
         if grp.head? = some i then
           let members := grp.filterMap (fun j => ds[j]?)
+          let outs := members.foldl (fun acc m => union acc m.outs) []
+          -- only the group's own strong couplings stop being dependencies of the group
           some (⟨"grp" ++ toString i,
-                 diffL (members.foldl (fun acc m => union acc m.ins) []) sc,
-                 members.foldl (fun acc m => union acc m.outs) []⟩, grp)
+                 diffL (members.foldl (fun acc m => union acc m.ins) []) (inter sc outs),
+                 outs⟩, grp)
         else none
       else some (d, [i]))
 
@@ -378,11 +381,12 @@ def minimalCouplings (ds : List Disc) (res : List (String × String))
   let names := merged.flatMap (fun (k, mi, mo) =>
     match red[k]? with
     | none => []
-    | some (_, members) =>
+    | some (rdisc, members) =>
       let base := union mi mo
       if members.length > 1 || members.any (isStrong ds states) then
+        let groupSc := inter sc rdisc.outs
         base ++ members.flatMap (fun j => match ds[j]? with
-          | some m => inter (union (union mi mo) sc) (union m.ins m.outs)
+          | some m => inter (union (union mi mo) groupSc) (union m.ins m.outs)
           | none => [])
       else base)
   sortNames (diffL (inter (allCouplings ds) names) states)
